@@ -90,3 +90,8 @@ CORPUS += [
       expect=[('C02.N', 'evolution::branches-are-the-nodes-with-a-parent')]),
     T('c02-benign-root-recognised-as-seed-node', TM, "lambda node: node.parent_node is not None", "lambda node: node is not tree.seed_node", benign=True),
 ]
+CORPUS += [
+    T('c02-benign-patterns-built-by-a-comprehension', SP, "    patterns = dict(zip(taxa, patterns_list))\n", "    patterns = {name: row for name, row in zip(taxa, patterns_list)}\n", benign=True),
+    T('c02-benign-patterns-filled-in-a-loop', SP, "    patterns = dict(zip(taxa, patterns_list))\n", "    patterns = {}\n    for name, row in zip(taxa, patterns_list):\n        patterns[name] = row\n", benign=True),
+    T('c02-patterns-keyed-by-position', SP, "    patterns = dict(zip(taxa, patterns_list))\n", "    patterns = dict(zip(sorted(taxa), patterns_list))\n", expect=[('C02.N', 'compress::patterns-keyed-by-taxon-name')]),
+]
